@@ -25,15 +25,15 @@ func c09(c *hx.Ctx) {
 	c.Rule = "rwc.Conn over a re-chunked stream: written data 0..300 bytes (some 2000..5000 to cross connPktSize), chunkings 1-byte / all-at-once / random, reader buffer sizes from {0,1,2,3,7,16,100,2047,2048,4096} per Read, underlying end = io.EOF or a reset error (sometimes delivered together with the last bytes); Conn.Write over short-writing / failing writers; non-trivial = distinct run that returned data"
 	sizes := []int{0, 1, 2, 3, 7, 16, 100, 2047, 2048, 4096}
 	for i := 0; i < c.N; i++ {
-		n := c.Rng.Intn(120)
+		n := c.Rng.Intn(80)
 		switch c.Rng.Intn(12) {
 		case 0:
 			n = 0
 		case 1:
 			n = 200 + c.Rng.Intn(100)
 		case 2:
-			if i%4 == 0 {
-				n = 2000 + c.Rng.Intn(3000)
+			if i%8 == 0 {
+				n = 2040 + c.Rng.Intn(600)
 			}
 		}
 		data := make([]byte, n)
@@ -104,7 +104,7 @@ func c09(c *hx.Ctx) {
 			}
 		}
 		desc := map[string]any{"kind": "conn", "len": n, "data": hx.Hex(clip(data)), "chunking": cname, "chunks": chunks, "bufs": bufs, "end_error": ecls, "eof_with_data": src.eofData, "reads": od}
-		c.Case(hx.App("Cn", hx.NatList(chunks), hx.Bytes(data), hx.Nat(ecls), hx.NatList(bufs), hx.List(terms)), desc)
+		c.Case(hx.App("Cn", natList(chunks), hx.Bytes(data), hx.Nat(ecls), hx.NatList(bufs), hx.List(terms)), desc)
 		c.Class("conn/" + cname)
 		if big {
 			c.Class("conn/big-buffers")
